@@ -1,7 +1,7 @@
 CONSTANTS
   Dev = {}
   Alphabet <- AlphaObj
-  MaxLen = 6
+  MaxLen = 5
   DepthProbe = {0, 1, 2, 256}
 INIT Init
 NEXT Next
